@@ -66,6 +66,7 @@ type Engine struct {
 	HypFuelFull bool
 	NoPrune   bool
 	globalsInit map[*ssa.Global]*Term
+	globalMaps  map[*ssa.Global][][2]*Term
 	keySort map[string]*Sort
 	nonNilGlobals map[string]bool // "global!<pkg>.<name>": declared `//@ nonnil` in a contract file
 	allFns map[*ssa.Function]bool
